@@ -36,7 +36,7 @@ PROPS = {
         components=dict(real=['pysph/solver/controller.py (all of it, unmodified source)',
                               'pysph/solver/solver_interfaces.py CommandlineInterface.start (share of runs)'],
                         fake=['solver object (attribute bag recording writes)',
-                              'solver thread loop (count += 1; execute_commands(solver))',
+                              'solver thread loop (count += 1; execute_commands(solver)) in 70% of the runs; the real Solver.solve with a no-op integrator drives the control points in the rest',
                               'threading/_thread (vsim.simthreads)', 'injected size-1 communicator whose bcast/gather are scheduling points (half of the runs)', 'input()/print() of the command line front end'],
                         not_simulated=['XML-RPC and multiprocessing front ends (need sockets)',
                                        'blocking-mode commands are executed in the caller, not queued: not covered by the statement']),
@@ -52,7 +52,7 @@ PROPS = {
 PROBES = {'C18': ['solver_paused_nonempty', 'two_pausers', 'notify_no_waiter',
                   'queued_while_paused', 'get_result_before_exec', 'get_result_after_exec',
                   'queue_nonempty_at_cp_entry', 'cont_while_solver_between_cps',
-                  'wait_returned', 'cli_frontend_runs', 'drain_phase_needed']}
+                  'wait_returned', 'cli_frontend_runs', 'drain_phase_needed', 'real_solver_loop']}
 
 _SRC = {}
 
@@ -126,7 +126,8 @@ def gen(t, prop, tier):
         policy['starve'] = {'tid': t.int(0, n_iface), 'from': a, 'to': a + t.int(5, 60)}
     return dict(programs=programs, policy_kind=kind, policy=policy,
                 sched=[t.int(0, 5) for _ in range(t.choice([40, 120, 300]))],
-                max_cp=t.choice([6, 12, 25]), spurious=0, comm_yield=1 if t.bool(0.5) else 0)
+                max_cp=t.choice([6, 12, 25]), spurious=0, comm_yield=1 if t.bool(0.5) else 0,
+                real_solver=1 if t.bool(0.3) else 0, command_interval=t.choice([1, 1, 2, 3]))
 
 
 def _gen_cli(t, regime):
@@ -176,6 +177,9 @@ class FakePA(object):
     def __init__(self, h, name):
         object.__setattr__(self, '_h', h)
         object.__setattr__(self, 'name', name)
+
+    def set_time(self, t):
+        pass
 
     def __getattr__(self, p):
         if p.startswith('tag_'):
@@ -229,6 +233,7 @@ class Harness(object):
         self.nqueued = 0
         self.npause = 0
         self.conclusive_end = False
+        self.settable = list(SETTABLE)
 
     def probe(self, name, n=1):
         self.probes[name] = self.probes.get(name, 0) + n
@@ -261,6 +266,7 @@ class Harness(object):
 
 def _iface_ops(h, ctrl, idx, ops, cm, tids, depth=0):
     S = h.S
+    SETTABLE = h.settable
     for opi, op in enumerate(ops):
         if not isinstance(op, list) or not op:
             continue
@@ -274,13 +280,13 @@ def _iface_ops(h, ctrl, idx, ops, cm, tids, depth=0):
         elif k == 'yield':
             st.yield_now('yield')
         elif k == 'bset':
-            name = op[1] if len(op) > 1 and op[1] in SETTABLE else 'dt'
+            name = op[1] if len(op) > 1 and op[1] in SETTABLE else SETTABLE[0]
             ctrl.set_blocking(True)
             ctrl.set(name, h.fresh('b'))
         elif k in ('qset', 'qnamed', 'qnames'):
             ctrl.set_blocking(False)
             if k == 'qset':
-                name = op[1] if len(op) > 1 and op[1] in SETTABLE else 'dt'
+                name = op[1] if len(op) > 1 and op[1] in SETTABLE else SETTABLE[0]
                 key = h.fresh('v')
                 h.issued[key] = dict(kind='set', thread=idx, queued_seq=None, tid=None)
                 tid = ctrl.set(name, key)
@@ -387,7 +393,10 @@ class _CLIInput(object):
             self.paused = False
             return 'c'
         if line.startswith('s ') and len(line.split()) == 2:
-            line = line + ' ' + repr(self.h.fresh('c'))
+            nm = line.split()[1]
+            if nm not in self.h.settable:
+                nm = self.h.settable[0]
+            line = 's ' + nm + ' ' + repr(self.h.fresh('c'))
         return line
 
 
@@ -402,6 +411,9 @@ def execute(sc, prop):
         raise InvalidScenario(repr(e))
     policy['kind'] = sc.get('policy_kind', policy.get('kind', 'random'))
     h = Harness(sc)
+    if sc.get('real_solver'):
+        # properties the real loop computes with (dt, tf, pfreq) are left alone
+        h.settable = ['fname', 'output_directory', 'detailed_output']
     S = st.Scheduler(sched=sched, policy=policy, max_events=6000, spurious=bool(sc.get('spurious')))
     h.S = S
     st.install(S)
@@ -436,62 +448,106 @@ def execute(sc, prop):
                 h.iface_done[idx] = True
         return body
 
-    def solver_main():
-        ncp = 0
-        drain = 0
-        drain_budget = None
-        while True:
-            all_done = all(h.iface_done)
-            if h.holding:
-                h.violate('progress-while-paused',
-                          'solver started a new iteration while interface thread(s) %s hold it paused'
-                          % sorted(h.holding))
-            solver.__dict__['count'] += 1
-            solver.__dict__['t'] += solver.__dict__['dt'] if isinstance(solver.__dict__['dt'], float) else 0.01
-            h.in_cp = True
-            h.cp_index += 1
-            h.cp_enter_seq = S.seq
-            if cm.queue:
-                h.probe('queue_nonempty_at_cp_entry')
-            S.event('cp_enter')
-            cm.execute_commands(solver)
-            # commands fully queued before this control point began must have run in it
-            for key, info in h.issued.items():
-                qs = info.get('queued_seq')
-                if qs is not None and qs < h.cp_enter_seq and info['kind'] != 'names' and not h.execs.get(key):
-                    h.violate('not-executed-at-next-control-point',
-                              'command %r queued at event %d was not executed by the control point that began at event %d'
-                              % (key, qs, h.cp_enter_seq))
-            h.in_cp = False
-            S.event('cp_exit')
-            ncp += 1
-            if all_done:
-                h.conclusive_end = True
-                return
-            if h.phase == 'main' and ncp >= max_cp:
-                h.phase = 'drain'
-                h.probe('drain_phase_needed')
-                S.fair = True
-                left = sum(max(0, x) for x in h.iface_left)
-                for p in programs:
-                    if p.get('kind') == 'cli':
-                        left += len(p.get('lines', [])) + 1
-                drain_budget = 2 * left + 4
-            if h.phase == 'drain':
-                # let the interface threads run until each is blocked or finished
-                spin = 0
-                while spin < 4000 and any(t.state in (st.RUNNABLE, st.TIMED) for t in h.iface_threads):
-                    st.yield_now('drain')
-                    spin += 1
-                drain += 1
-                if drain > drain_budget and not all(h.iface_done):
-                    stuck = [t.name + ' on ' + repr(t.blocked_on) for t in h.iface_threads if t.state == st.BLOCKED]
-                    h.violate('no-progress-under-fair-schedule',
-                              'after %d further control points under a fair schedule interface thread(s) are still blocked: %s'
-                              % (drain, '; '.join(stuck)))
+    cp_state = dict(ncp=0, drain=0, drain_budget=None)
+
+    def control_point(sv):
+        """one control point on the solver thread; returns True when the solver should stop"""
+        all_done = all(h.iface_done)
+        h.in_cp = True
+        h.cp_index += 1
+        h.cp_enter_seq = S.seq
+        if cm.queue:
+            h.probe('queue_nonempty_at_cp_entry')
+        S.event('cp_enter')
+        cm.execute_commands(sv)
+        # commands fully queued before this control point began must have run in it
+        for key, info in h.issued.items():
+            qs = info.get('queued_seq')
+            if qs is not None and qs < h.cp_enter_seq and info['kind'] != 'names' and not h.execs.get(key):
+                h.violate('not-executed-at-next-control-point',
+                          'command %r queued at event %d was not executed by the control point that began at event %d'
+                          % (key, qs, h.cp_enter_seq))
+        h.in_cp = False
+        S.event('cp_exit')
+        cp_state['ncp'] += 1
+        if all_done:
+            h.conclusive_end = True
+            return True
+        if h.phase == 'main' and cp_state['ncp'] >= max_cp:
+            h.phase = 'drain'
+            h.probe('drain_phase_needed')
+            S.fair = True
+            left = sum(max(0, x) for x in h.iface_left)
+            for p in programs:
+                if p.get('kind') == 'cli':
+                    left += len(p.get('lines', [])) + 1
+            cp_state['drain_budget'] = 2 * left + 4
+        if h.phase == 'drain':
+            # let the interface threads run until each is blocked or finished
+            spin = 0
+            while spin < 4000 and any(t.state in (st.RUNNABLE, st.TIMED) for t in h.iface_threads):
+                st.yield_now('drain')
+                spin += 1
+            cp_state['drain'] += 1
+            if cp_state['drain'] > cp_state['drain_budget'] and not all(h.iface_done):
+                stuck = [t.name + ' on ' + repr(t.blocked_on) for t in h.iface_threads if t.state == st.BLOCKED]
+                h.violate('no-progress-under-fair-schedule',
+                          'after %d further control points under a fair schedule interface thread(s) are still blocked: %s'
+                          % (cp_state['drain'], '; '.join(stuck)))
+                return True
+        else:
+            st.yield_now('between')
+        return False
+
+    def progress_check():
+        if h.holding:
+            h.violate('progress-while-paused',
+                      'solver started a new iteration while interface thread(s) %s hold it paused' % sorted(h.holding))
+
+    if sc.get('real_solver'):
+        # the real time-marching loop (pysph/solver/solver.py has no threading of its own) drives the control points
+        import pysph.solver.solver as SM
+
+        class RecSolver(SM.Solver):
+            def __setattr__(self, k, v):
+                object.__setattr__(self, k, v)
+                if isinstance(v, str) and v[:1] in ('v', 'b', 'c') and v[1:].isdigit():
+                    h.exec_event('set', v)
+
+        class _Integ(object):
+            def initial_acceleration(self, t, dt):
+                pass
+
+            def step(self, t, dt):
+                pass
+
+            def compute_time_step(self, dt, cfl):
+                return None
+
+        real = RecSolver(dim=1, integrator=_Integ(), tf=1e9, dt=1.0, pfreq=10 ** 9)
+        real.particles = solver.particles
+        object.__setattr__(real, 'dump_output', lambda: None)
+        real.pre_step_callbacks.append(lambda sv: progress_check())
+
+        def handler(sv):
+            if control_point(sv):
+                object.__setattr__(sv, 'tf', sv.t)
+        real.set_command_handler(handler, max(1, int(sc.get('command_interval', 1))))
+        cm.solver = real
+        solver = real
+        h.solver = real
+        h.probe('real_solver_loop')
+
+        def solver_main():
+            real.solve(show_progress=False)
+    else:
+        def solver_main():
+            while True:
+                progress_check()
+                solver.__dict__['count'] += 1
+                solver.__dict__['t'] += solver.__dict__['dt'] if isinstance(solver.__dict__['dt'], float) else 0.01
+                if control_point(solver):
                     return
-            else:
-                st.yield_now('between')
 
     for idx, prog in enumerate(programs):
         if not isinstance(prog, dict):
